@@ -6,6 +6,11 @@ from . import core, runner, refs, smtlib, evalsmt, families as F, scriptmc as S,
 
 PROP_POOL_CLAUSES = ['(or p q r)', '(or (not p) q s)', '(or p (not q) r)', '(or (not p) (not q) (not r))', '(or (not r) s)', '(or r (not s))', '(or p (not r) (not s))', '(or (not p) r s)',
                      '(or q (not s))', '(or (not q) s p)', '(xor p q r)', '(= (and p q) (or r s))']
+# clauses over two Boolean variables and four order atoms (A and B imply C; A, B, D form a cycle): conflicts here run through
+# theory-propagated literals on several decision levels, which the family sets (<= 3 assertions) never produce
+_A, _B, _C, _D = '(< x y)', '(< y z)', '(< x z)', '(< z x)'
+LRA_POOL_CLAUSES = ['(or p q)', '(or (not p) %s)' % _A, '(or (not q) %s)' % _B, '(or (not %s) (not %s) q)' % (_A, _C), '(or (not %s) (not q))' % _C, '(or (not p) %s)' % _B, '(or (not q) %s)' % _A,
+                    '(or p (not %s))' % _D, '(or q %s)' % _C, '(or (not %s) p)' % _C, '(or %s (not %s) q)' % (_D, _A), '(or (not %s) (not q) %s)' % (_D, _C), '(or %s %s)' % (_A, _B), '(or (not %s) (not p) %s)' % (_B, _D)]
 ENGINE_VECS = {'C11': [(), ('lookahead',), ('picky',), ('ghost',), ('noincr',), ('proofs',), ('itp',)],
                'C12': [(), ('lookahead',), ('picky',), ('ghost',), ('noincr',), ('asymm',), ('rcheck',), ('noelim',), ('proofs',), ('ccmin0',), ('restart1',)],
                'C13': [(), ('proofs',), ('nosubst',), ('itp',)],
@@ -124,8 +129,8 @@ def set_task(t):
     extra = fam.extra if pool == 'full' else ()
     res = core.new_result(); cov = res['cov']
     w = S.worker()
-    if pool == 'clauses':
-        sets = [list(c) for k in (5, 6, 7) for c in itertools.combinations(PROP_POOL_CLAUSES, k)]
+    if pool in ('clauses', 'lraclauses'):
+        sets = [list(c) for k in (5, 6, 7) for c in itertools.combinations(PROP_POOL_CLAUSES if pool == 'clauses' else LRA_POOL_CLAUSES, k)]
         gen = sets[start::step]
     else:
         gen = itertools.islice(F.assertion_sets(atoms, n, extra), start, None, step)
@@ -201,6 +206,7 @@ def run(prop, tier):
     chk.run_stage('n<=3, 6-atom pools, default options', st(coref, 'core', 3, [()], 8), set_task)
     if prop == 'C12':
         chk.run_stage('propositional clause sets (5-7 of 12 clauses over 4 variables), %d option vectors' % len(vecs), st(['PROP'], 'clauses', 0, vecs, 16), set_task)
+        chk.run_stage('clause sets over 2 Boolean variables and 4 order atoms (5-7 of 14 clauses; theory propagation inside conflict analysis), %d option vectors' % len(vecs[:6]), st(['QF_LRA'], 'lraclauses', 0, vecs[:6], 32), set_task)
     chk.run_stage('histories L<=5 (4 assertions), default options', [(prop, f, 4, 5, (), s, 4) for f in hf for s in range(4)], hist_task)
     if prop == 'C11':
         dlf = ['QF_RDL'] if tier == 'quick' else ['QF_RDL', 'QF_IDL']
